@@ -37,6 +37,15 @@ func (d *caseDump) attrs(as []AssignSpec) string {
 	for _, x := range as {
 		at := d.b.Attrs[x.Attr]
 		fmt.Fprintf(&sb, " %d %s %s", hAttr+x.Attr, hx(at.Name()), hx(at.EntityID().String()))
+		// the value map of an enum attribute, in an order unrelated to the indexes
+		var vals []string
+		if ea, err := at.ToEnum(); err == nil {
+			vals = ea.Values()
+		}
+		fmt.Fprintf(&sb, " %d", len(vals))
+		for k := len(vals) - 1; k >= 0; k-- {
+			fmt.Fprintf(&sb, " %d %s", k, hx(vals[k]))
+		}
 	}
 	return sb.String()
 }
@@ -154,7 +163,12 @@ func writeCase(w *bufio.Writer, idx int, sp *Spec, b *Built, o outputs) {
 		if bs.Builder >= 0 {
 			bh = hBuilder + bs.Builder
 		}
-		fmt.Fprintf(d.w, "bus %d %s %s %d %d %s %s\n", hBus+bi, hx(bus.Name()), hx(bus.Desc()), bus.Baudrate(), bh, hx(bn), d.attrs(bs.Attrs))
+		ops := bus.CANIDBuilder().Operations()
+		opsTok := fmt.Sprint(len(ops))
+		for _, op := range ops {
+			opsTok += fmt.Sprintf(" %d %d %d", int(op.Kind()), op.From(), op.Len())
+		}
+		fmt.Fprintf(d.w, "bus %d %s %s %d %d %s %s %s\n", hBus+bi, hx(bus.Name()), hx(bus.Desc()), bus.Baudrate(), bh, hx(bn), opsTok, d.attrs(bs.Attrs))
 		for _, f := range bs.Ifs {
 			n := b.Nodes[f.Ref.Node]
 			fmt.Fprintf(d.w, "nif %d %s %s %d %s\n", hNode+f.Ref.Node, hx(n.Name()), hx(n.Desc()), uint32(n.ID()), d.attrs(sp.Nodes[f.Ref.Node].Attrs))
@@ -224,6 +238,15 @@ func (d *caseDump) saveEvents(wire []byte) []string {
 			for _, c := range v.Multiplexer.Signals {
 				sig(c)
 			}
+			for _, id := range v.Multiplexer.FixedSignalEntityIds {
+				ev = append(ev, fmt.Sprintf("X%d", h(id)))
+			}
+			for _, g := range v.Multiplexer.Groups {
+				ev = append(ev, "G")
+				for _, r := range g.GetRefs() {
+					ev = append(ev, fmt.Sprintf("P%d:%d", h(r.SignalEntityId), r.RelStartBit))
+				}
+			}
 		}
 	}
 	for _, b := range n.Buses {
@@ -237,6 +260,9 @@ func (d *caseDump) saveEvents(wire []byte) []string {
 				for _, s := range m.Signals {
 					sig(s)
 				}
+				for _, r := range m.Payload.GetRefs() {
+					ev = append(ev, fmt.Sprintf("P%d:%d", h(r.SignalEntityId), r.RelStartBit))
+				}
 				for _, r := range m.Receivers {
 					ev = append(ev, fmt.Sprintf("R%d:%d", h(r.NodeEntityId), r.NodeInterfaceNumber))
 				}
@@ -245,6 +271,9 @@ func (d *caseDump) saveEvents(wire []byte) []string {
 	}
 	for _, x := range n.CanidBuilders {
 		ev = append(ev, fmt.Sprintf("F0:%d", h(x.Entity.GetEntityId())))
+		for _, op := range x.Operations {
+			ev = append(ev, fmt.Sprintf("O%d:%d:%d", int(op.Kind)-1, op.From, op.Len))
+		}
 	}
 	for _, x := range n.Nodes {
 		ev = append(ev, fmt.Sprintf("F1:%d", h(x.Entity.GetEntityId())))
@@ -264,6 +293,11 @@ func (d *caseDump) saveEvents(wire []byte) []string {
 	}
 	for _, x := range n.Attributes {
 		ev = append(ev, fmt.Sprintf("F5:%d", h(x.Entity.GetEntityId())))
+		if ea := x.GetEnumAttribute(); ea != nil {
+			for _, v := range ea.Values {
+				ev = append(ev, "E"+hx(v))
+			}
+		}
 	}
 	return ev
 }
@@ -274,13 +308,14 @@ var (
 	reBO       = regexp.MustCompile(`^BO_ (\d+) (\S+)\s*: (\d+) (.*)$`)
 	reSG       = regexp.MustCompile(`^\s*SG_ (\S+)`)
 	reBADef    = regexp.MustCompile(`^BA_DEF_ (BU_|BO_|SG_|)\s*"([^"]*)"`)
+	reQuoted   = regexp.MustCompile(`"([^"]*)"`)
 	reBA       = regexp.MustCompile(`^BA_ "([^"]*)" (.*);$`)
 )
 
 // dbcEvents projects a DBC text onto its order skeleton: nodes (BU_), value tables, messages with
 // their signals, attribute value lines of user attributes (owner key, attribute name).
 func dbcEvents(text string, attrNames map[string]bool) []string {
-	var nodes, labs, msgs, defs, asg []string
+	var nodes, labs, msgs, defs, asg, coms, encs, exts []string
 	firstSig := false
 	for _, ln := range strings.Split(text, "\n") {
 		ln = strings.TrimRight(ln, "\r")
@@ -319,7 +354,40 @@ func dbcEvents(text string, attrNames map[string]bool) []string {
 		case strings.HasPrefix(ln, "BA_DEF_ "):
 			if m := reBADef.FindStringSubmatch(ln); m != nil && attrNames[m[2]] {
 				k := map[string]int{"": 0, "BU_": 1, "BO_": 2, "SG_": 3}[m[1]]
-				defs = append(defs, fmt.Sprintf("D%d:%s", k, hx(m[2])))
+				tok := fmt.Sprintf("D%d:%s:", k, hx(m[2]))
+				rest := ln[len(m[0]):]
+				if strings.HasPrefix(strings.TrimSpace(rest), "ENUM") {
+					for _, q := range reQuoted.FindAllStringSubmatch(rest, -1) {
+						tok += hx(q[1]) + ","
+					}
+				}
+				defs = append(defs, tok)
+			}
+		case strings.HasPrefix(ln, "CM_ "):
+			f := strings.Fields(ln)
+			switch {
+			case len(f) >= 3 && f[1] == "BU_":
+				coms = append(coms, "CN"+hx(f[2]))
+			case len(f) >= 3 && f[1] == "BO_":
+				coms = append(coms, "CM"+f[2])
+			case len(f) >= 4 && f[1] == "SG_":
+				coms = append(coms, "CS"+f[2]+"."+hx(f[3]))
+			default:
+				coms = append(coms, "CB")
+			}
+		case strings.HasPrefix(ln, "VAL_ "):
+			f := strings.Fields(ln)
+			if len(f) >= 3 {
+				tok := "VS" + f[1] + "." + hx(strings.TrimSuffix(f[2], ";")) + ":"
+				for _, q := range reValPair.FindAllStringSubmatch(ln, -1) {
+					tok += q[1] + ","
+				}
+				encs = append(encs, tok)
+			}
+		case strings.HasPrefix(ln, "SG_MUL_VAL_ "):
+			f := strings.Fields(strings.TrimSuffix(strings.TrimSpace(ln), ";"))
+			if len(f) >= 4 {
+				exts = append(exts, "X"+hx(f[3])+"."+hx(f[2])+":"+strings.ReplaceAll(strings.Join(f[4:], ""), " ", ""))
 			}
 		case strings.HasPrefix(ln, "BA_ "):
 			m := reBA.FindStringSubmatch(ln)
@@ -348,5 +416,11 @@ func dbcEvents(text string, attrNames map[string]bool) []string {
 	res = append(res, defs...)
 	res = append(res, "|")
 	res = append(res, asg...)
+	res = append(res, "|")
+	res = append(res, coms...)
+	res = append(res, "|")
+	res = append(res, encs...)
+	res = append(res, "|")
+	res = append(res, exts...)
 	return res
 }
